@@ -115,5 +115,12 @@ def foldAdd (init : F) (xs : List F) : F := xs.foldl fadd init
 
 def ones (n : Nat) : List F := List.replicate n one
 
+/-- fold `step` over the per-constraint results, skipping those whose evaluation raised (`none`):
+    the `try: … fitness += result.fitness() … except Exception: log` loop of `_evaluate_constraints` -/
+def foldOk (step : F → F → F) (init : F) (fs : List (Option F)) : F :=
+  fs.foldl (fun acc r => match r with
+    | some x => step acc x
+    | none => acc) init
+
 end F
 end FV
